@@ -35,12 +35,14 @@ CHECKS = {
     },
     'C13': {
         'engine': 'K',
-        'technique': 'Kani complete harnesses per operator with evaluate_constexpr stubbed (modular induction step)',
-        'level_text': 'Complete symbolic proof (Kani/CBMC, loop-free, full bit-width operands of every Constant kind) that evaluate_operator returns the value '
-                      'the statement defines for each of the 26 operators and never aborts; sub-expression evaluation is cut by a stub so the result holds at any depth.',
-        'level_note': 'Assumed (harness preconditions, not proved of the typer): arity matches the operator; operands are all of one enum type or none; '
-                      'both operands have the same kind; ~ only on integers. Not covered: that every constant-demanding syntactic position routes through evaluate_constexpr. '
-                      'CBMC IEEE-754 float model; Module::default() as ambient module.',
+        'technique': 'Kani complete harnesses per operator of the constant evaluator with evaluate_constexpr stubbed (modular induction step)',
+        'level_text': 'Complete symbolic proof (Kani/CBMC, loop-free, full bit-width operands of every Constant kind, enum-wrapped or not) that evaluate_operator returns the value '
+                      'the statement defines for 23 of its 26 operators and never aborts; sub-expression evaluation is cut by a stub so the result holds at any expression depth; '
+                      'Constant::to_uint64 (array sizes, unroll counts, ...) yields exactly the non-negative integer values.',
+        'level_note': 'NOT yet decided: * / % (equivalence of multiplier/divider circuits does not finish in CBMC; alternative SMT back ends are being sized), evaluate_cast and the cast arm of evaluate_constexpr '
+                      '(harnesses exist, too slow for a registered tier so far). Assumed (harness preconditions, not proved of the typer): arity matches the operator; operands are all of one enum type or none; '
+                      'both operands have the same kind; ~ only on integers. Bool operands are left out of < <= > >= because Kani 0.68 mis-models the ordering of bool. '
+                      'Not covered: that every constant-demanding syntactic position routes through evaluate_constexpr. CBMC IEEE-754 float model; Module::default() as ambient module.',
     },
 }
 
